@@ -19,7 +19,7 @@ TRUSTED = ['the clock (irclib.time.time), the composite outFilter chain (any fun
 ASSUMPTIONS = ['settings may be changed on the live bot between calls (history op 7): each call is judged against the values in force when it is made (the code reads the registry at call time; t19 pins that)',
                'driver.reconnect() is an observable event of the model (the stub driver does nothing); a real driver resets the Irc on reconnect, which clears both queues, so the oracle counts a reconnect asked for by takeMsg while accepted messages are waiting as a loss (theorem C19_reconnect_only_idle: it is only ever asked for with nothing pending)',
                'a message whose line has no UTF-8 form (lone surrogate) cannot be sent at all: that takeMsg discards it (UnicodeEncodeError from _truncateMsg behind the firewall, since the fix of C06.F19) is not counted as a loss; the oracle accepts this only when the message, as the filters left it, really cannot be encoded, and demands that nothing unencodable is ever handed to the driver',
-               'world.testing/log.testing off; each queued IrcMsg is a fresh object; supybot.protocols.irc.umodes empty',
+               'world.testing/log.testing off; supybot.protocols.irc.umodes empty; IrcMsg objects need not be fresh: histories queue the same object twice and objects already sent on another network (the model has no object identity: the repaired code treats them like fresh ones)',
                'die() before the end of MOTD (afterConnect false) closes the driver at once by design; every other kill of the driver (by takeMsg, by die() after 376/422, by reset) is checked: nothing accepted may then be waiting in the fastqueue or the queue',
                'a history ends when driver.die() has been called']
 LEVEL_TEXT = ('Coq theorems over an executable Gallina model of IrcMsgQueue and Irc.queueMsg/sendMsg/takeMsg/die/reset (clock, filter chain '
@@ -29,7 +29,8 @@ LEVEL_TEXT = ('Coq theorems over an executable Gallina model of IrcMsgQueue and 
               'silent refusal by sendMsg (finding F18b).  C19_refines packages queue discipline, fates and spacing as a trace refinement of an abstract sender (express queue + three FIFO queues + throttle + JOIN rate limit, Spec.v); C19_delivery_under_polling gives eventual delivery under steady polling with an explicit bound in polls (Psi); a refusal by queueMsg has a reason (C19_refusal_has_reason).  Model tied to the source by regenerated '
               '_high/_low/JOIN tables and a differential run of events and full send state against a real Irc on every check.')
 LEVEL_NOTE = ('Messages without a wire form (menc false in the model) are the only ones takeMsg itself discards (theorem C19_only_unencodable_discarded); C19_no_loss_encodable gives the plain ledger under the hypothesis that every accepted message is encodable after the filters.  Trusted: Coq kernel, gen_tables.py, extraction + OCaml driver, the Python harness (event reconstruction from queue snapshots, '
-              'filter logs and driver log); Python code is modelled not verified; truncation/labels/echo emulation are outside the model.')
+              'filter logs and driver log); Python code is modelled not verified; truncation/labels/echo emulation are outside the model (an exception raised there would lose the message in flight through the firewall: only the UTF-8 case is modelled; t19 pins that takeMsg contains no assert).  '
+              'NOT modelled / not explored: non-integer clock readings and throttle values (histories use whole seconds); the Python recursion limit of takeMsg on long runs of filter-dropped messages (model fuel = number of pending messages; probed up to 2000 consecutive drops without losing a passing message); driver.reconnect() resetting the Irc inside takeMsg (an event only; C19_reconnect_only_idle shows nothing is pending then); the requireStarttls branch of _setNonResettingVariables (kills the driver at construction/reset; off by default); umodes sent by do376; a second live network (one Irc per history, a helper Irc only pre-sends shared objects); what _reallyDie does to world.ircs and the shared callback list after the driver is closed (a history ends there); IrcMsg.__eq__ beyond (command, arguments, encodability): prefix, server tags and the cached hash are not varied.')
 TECHNIQUE = 'Coq proof (inductive invariants over op histories, fuel induction for the takeMsg recursion) + regenerated tables + extracted-model differential correspondence'
 EXPLANATION = 'C19: send-path model of src/irclib.py; theorems in coq/C19/Props.v'
 
@@ -125,6 +126,7 @@ def run_impl(case):
     sess = Sess()
     sess.ft = E['FakeTime']()
     sess.info, sess.keep, sess.seen, sess.dropped, sess.cur, sess.out = {}, [], [], [], None, None
+    sess.by_mid, sess.other = {}, None
     saved_time = irclib.time
     irclib.time = sess.ft
     irc = None
@@ -145,10 +147,25 @@ def run_impl(case):
                                                     int('die' in irc.driver.log)]
 
     def mk(m):
+        """the IrcMsg object of a history message.  A message list with the mid of an earlier op is THE SAME OBJECT queued again;
+        7th field 1: the object has first been queued and sent on another network (what Relay._sendToOthers does with three networks)"""
+        if m[0] in sess.by_mid:
+            return sess.by_mid[m[0]]
         bad = len(m) > 5 and m[5]
         obj = ircmsgs.IrcMsg(command=m[1], args=(str(m[2]) + ('\udc80' if bad else ''),))
         sess.info[id(obj)] = m
         sess.keep.append(obj)
+        sess.by_mid[m[0]] = obj
+        if len(m) > 6 and m[6]:
+            if sess.other is None:
+                sess.other = irclib.Irc('test', callbacks=[])
+                sess.other.driver = E['Drv']()
+            sess.other.queueMsg(obj)
+            for _ in range(12):
+                sess.other.lastTake = -10 ** 9
+                sess.other.queue.lastJoin = -10 ** 9
+                if sess.other.takeMsg() is obj:
+                    break
         return obj
 
     try:
@@ -207,7 +224,7 @@ def run_impl(case):
                 new = [m for m in aflat if id(m) not in bids]
                 fbids = set(id(m) for m in before[0])
                 if code in (0, 1):
-                    present = any(m is obj for m in aflat)
+                    present = sum(1 for m in aflat if m is obj) > sum(1 for m in bflat if m is obj)
                     fact['present'] = present
                     if present:
                         evs.append([0, ent(obj)])
@@ -260,8 +277,9 @@ def run_impl(case):
                 break
     finally:
         irclib.time = saved_time
-        if irc is not None and irc in E['world'].ircs:
-            E['world'].ircs.remove(irc)
+        for x in (irc, sess.other):
+            if x is not None and x in E['world'].ircs:
+                E['world'].ircs.remove(x)
     # clock delay a dropping filter adds when it drops this message (for the length a polling tail needs)
     case['_infos'] = dict((k, (v[4] if v[3] >= 2 and v[4] > 0 else 0)) for k, v in sess.info.items())
     case['_keep'] = sess.keep
@@ -286,6 +304,11 @@ def oracle(case, facts):
     last_join = None
     die_asked_connected = False
     tail_start = None
+    times = {}
+    for f in facts:
+        for m in f.get('accepted', []):
+            times[id(m)] = times.get(id(m), 0) + 1
+    multi = set(k for k, v in times.items() if v > 1)
     for i, f in enumerate(facts):
         code = f['op']
         cfg = f['cfg']                              # the settings in force when this call was made
@@ -345,7 +368,7 @@ def oracle(case, facts):
                         out.append(('priority', 'op %d: queue message taken while the fastqueue still held a message' % i))
                     r = rank_of(irclib, m.command)
                     for p in afterq:
-                        if id(p) in seq and seq[id(p)] < seq[id(m)] and rank_of(irclib, p.command) < r:
+                        if id(p) in seq and id(p) not in multi and id(m) not in multi and seq[id(p)] < seq[id(m)] and rank_of(irclib, p.command) < r:
                             out.append(('priority', 'op %d: %s taken while more urgent %s queued earlier is still pending' % (i, m.command, p.command)))
                             break
                     same = [p for p in afterq if rank_of(irclib, p.command) == r]
@@ -359,7 +382,7 @@ def oracle(case, facts):
                 else:
                     same = list(f['after'][0])
                 for p in same:
-                    if p.command != 'JOIN' and id(p) in seq and seq[id(p)] < seq[id(m)]:
+                    if p.command != 'JOIN' and id(p) in seq and id(p) not in multi and id(m) not in multi and seq[id(p)] < seq[id(m)]:
                         out.append(('fifo', 'op %d: %s (accepted #%d) overtook %s (accepted #%d) of the same class'
                                     % (i, m.command, seq[id(m)], p.command, seq[id(p)])))
                         break
@@ -442,6 +465,22 @@ def gen_msg(rng, mid, hostile, tnow):
     return [mid, cmd, key, act, dt, bad]
 
 
+def share_objects(rng, ops):
+    """IrcMsg objects are not always fresh: now and then a queued object has already been sent on another network (7th field), or the very
+    same object is queued again later (a second queueMsg op carrying the same message list, hence the same mid)"""
+    qs = [k for k, o in enumerate(ops) if o[0] == 0]
+    for k in qs:
+        if rng.random() < 0.06:
+            m = ops[k][1]
+            while len(m) < 7:
+                m.append(0)
+            m[6] = 1
+    if qs and rng.random() < 0.25:
+        k = rng.choice(qs)
+        at = rng.randint(k + 1, len(ops))
+        ops.insert(at, [0, list(ops[k][1])])
+
+
 def gen_case(rng, hostile):
     cfg = [rng.choice([0, 0, 1, 1, 2, 5] + ([-1, -3] if hostile else [])),
            rng.choice([0, 0, 0, 2, 4, 10] + ([-2] if hostile else [])),
@@ -491,6 +530,7 @@ def gen_case(rng, hostile):
     for i, o in enumerate(ops):
         if o[0] in (0, 1):
             o[1][0] = i
+    share_objects(rng, ops)
     return {'cfg': cfg, 'ops': ops}
 
 
@@ -670,8 +710,8 @@ def gen_die_case(rng):
     return {'cfg': cfg, 'ops': ops}
 
 
-def M(mid, cmd, key=0, act=0, dt=0, bad=0):
-    return [mid, cmd, key, act, dt, bad]
+def M(mid, cmd, key=0, act=0, dt=0, bad=0, other=0):
+    return [mid, cmd, key, act, dt, bad, other]
 
 
 CORPUS = [
@@ -708,6 +748,11 @@ CORPUS = [
                                           [1, M(8, 'PONG', 1, 0, 0, 1)], [0, M(9, 'MODE', 1, 1, 0, 1)], [0, M(10, 'JOIN', 2, 0, 0, 1)], [0, M(11, 'NOTICE', 3, 3, 1, 1)],
                                           [2, 5], [2, 7], [2, 9], [2, 11], [2, 13], [2, 15], [2, 17], [3], [2, 19], [2, 21]]},
     {'cfg': [0, 0, 0, 1, 120, 0], 'ops': [[4, 1], [2, 2], [2, 3], [2, 4], [5], [0, M(5, 'PRIVMSG', 0, 0, 0, 1)], [3], [2, 6], [2, 7]]},
+    # old witnesses of C19.F47 (fixed): a PRIVMSG object already sent on another network (Relay with three networks); the same NOTICE
+    # object queued twice; both used to fail the echo-emulation asserts inside takeMsg and were lost after being taken from the queue
+    {'cfg': [0, 0, 0, 0, 120, 0], 'ops': [[4, 1], [2, 2], [2, 3], [2, 4], [5], [0, M(5, 'PRIVMSG', 0, 0, 0, 0, 1)], [2, 5], [2, 6]]},
+    {'cfg': [0, 0, 0, 0, 120, 0], 'ops': [[4, 1], [2, 2], [2, 3], [2, 4], [5], [0, M(5, 'NOTICE', 0)], [0, M(6, 'MODE', 1)], [0, M(5, 'NOTICE', 0)],
+                                          [2, 5], [2, 6], [2, 7], [2, 8]]},
     # throttleTime raised on the live bot (booted with 0): from then on releases must be 10 s apart; then lowered again; rateLimit.join and
     # queuing.duplicates changed live as well
     {'cfg': [0, 0, 0, 0, 120, 0], 'ops': [[4, 1], [2, 2], [2, 3], [2, 4], [5], [0, M(5, 'PRIVMSG', 0)], [0, M(6, 'PRIVMSG', 1)], [0, M(7, 'PRIVMSG', 2)],
